@@ -358,6 +358,9 @@ class Sccp:
                 return v[2]
             if v[0] == "t" and str(p[1]).isdigit() and int(p[1]) < len(v[1]):
                 return v[1][int(p[1])]
+            if v[0] == "t" and len(v[1]) == 1 and len(p) > 2 and str(p[2]).startswith("{closure}"):
+                # the single captured variable of a closure (captures are addressed by name)
+                return v[1][0]
             return None
         return None
 
@@ -452,6 +455,9 @@ class Sccp:
             if len(rv["ops"]) == 1:
                 payload = self._operand(env, rv["ops"][0])
             return V(rv["variant"], payload)
+        if k == "agg" and "closure" in rv:
+            # a closure value: which closure, and what it captured (by value or through a shared reference)
+            return ("c", rv["closure"], tuple(self._operand(env, o) for o in rv["ops"]))
         if k == "agg" and rv.get("tuple") and len(rv["ops"]) >= 2:
             # (a, b, …) as scrutinee of a match: tracked per component
             vals = tuple(self._operand(env, o) for o in rv["ops"])
@@ -667,20 +673,26 @@ def combinator_model(facts, inner=None, depth=0, field_model=None, callees=None)
     filter, is_some_and, and_then, unwrap_or, is_some/is_none, Result::is_ok/is_err, bool::then_some … — by evaluating the
     closure they are given (seeded propagation on the closure's body, same model inside). `inner(call, argv)` is consulted
     first and for every call this model does not know. What a closure captures from its parent is unknown to it."""
-    def closure_of(call, i):
+    def closure_of(call, i, argv=None):
+        # (closure fn, captured values)
+        if argv is not None and i < len(argv) and argv[i] is not None and argv[i][0] == "c" and argv[i][1] in facts.fns:
+            return facts.fns[argv[i][1]], argv[i][2]
         try:
             e = ExprBuilder(call.fn).operand(call.args[i])
         except Exception:
-            return None
+            return None, ()
         for x in walk(e):
             if x.k == "closure" and x[1] in facts.fns:
-                return facts.fns[x[1]]
-        return None
+                return facts.fns[x[1]], ()
+        return None, ()
 
-    def run_closure(g, params):
+    def run_closure(gc, params):
+        g, caps = gc
         if g is None or depth > 3:
             return None
         env = {}
+        if caps:
+            Sccp._write(env, (1, ()), ("t", tuple(caps)))
         for i, v in enumerate(params):
             if v is not None:
                 Sccp._write(env, (2 + i, ()), v)
@@ -729,37 +741,37 @@ def combinator_model(facts, inner=None, depth=0, field_model=None, callees=None)
             if va in ("None", "Err"):
                 return argv[1]
             if va in ("Some", "Ok"):
-                return run_closure(closure_of(call, 2), [a0[2]])
+                return run_closure(closure_of(call, 2, argv), [a0[2]])
             return None
         if p.endswith(("Option::is_some_and", "Result::is_ok_and")):
             if va in ("None", "Err"):
                 return I(0)
             if va in ("Some", "Ok"):
-                return run_closure(closure_of(call, 1), [a0[2]])
+                return run_closure(closure_of(call, 1, argv), [a0[2]])
             return None
         if p.endswith("Option::is_none_or"):
             if va == "None":
                 return I(1)
             if va == "Some":
-                return run_closure(closure_of(call, 1), [a0[2]])
+                return run_closure(closure_of(call, 1, argv), [a0[2]])
             return None
         if p.endswith(("Option::map", "Result::map")):
             if va in ("None", "Err"):
                 return a0
             if va in ("Some", "Ok"):
-                return V(va, run_closure(closure_of(call, 1), [a0[2]]))
+                return V(va, run_closure(closure_of(call, 1, argv), [a0[2]]))
             return None
         if p.endswith("Option::and_then"):
             if va == "None":
                 return a0
             if va == "Some":
-                return run_closure(closure_of(call, 1), [a0[2]])
+                return run_closure(closure_of(call, 1, argv), [a0[2]])
             return None
         if p.endswith("Option::filter"):
             if va == "None":
                 return a0
             if va == "Some":
-                keep = run_closure(closure_of(call, 1), [a0[2]])
+                keep = run_closure(closure_of(call, 1, argv), [a0[2]])
                 if keep == I(1):
                     return a0
                 if keep == I(0):
@@ -784,7 +796,7 @@ def combinator_model(facts, inner=None, depth=0, field_model=None, callees=None)
             return None
         if p.endswith("bool::then"):
             if a0 == I(1):
-                return V("Some", run_closure(closure_of(call, 1), []))
+                return V("Some", run_closure(closure_of(call, 1, argv), []))
             if a0 == I(0):
                 return V("None", None)
             return None
